@@ -111,6 +111,16 @@ int main(int argc, char **argv) {
         Plan P;
         if (!P.from_text(text, &err)) { fprintf(stderr, "bad plan: %s\n", err.c_str()); return 2; }
         P.resolve();
+        if (cmd == "replay" && arg_val(argc, argv, "--dump", nullptr)) {
+            // debugging aid: run only the writer program and store the resulting file on the real disk
+            sim::reset(P.seed, P.fill_key); probes::install();
+            WriterResult w = P.use_twr ? exec::write_twr(P, "/sim/a.jls", false) : exec::write_sync(P, "/sim/a.jls", false);
+            SFile *f = simfs::get("/sim/a.jls");
+            FILE *o = fopen(arg_val(argc, argv, "--dump", ""), "wb");
+            if (f && o) { fwrite(f->bytes.data(), 1, f->bytes.size(), o); fclose(o); }
+            printf("status=%s open_rc=%d close_rc=%d bytes=%zu\n", sim::status_name(w.status), w.open_rc, w.close_rc, f ? f->bytes.size() : 0);
+            return 0;
+        }
         if (cmd == "replay") {
             double t1 = now_ms();
             RunOutcome o = run_check(P.prop, P, tier);
